@@ -127,6 +127,13 @@ def build_call(case):
             args = (dims[-1], "y")
     elif mode == "heat":
         data = {"z": var(cells + 1, case["ynull"])}
+        if n == 2:
+            # plain 2-D heat map (nothing mapped, nothing aggregated): a missing cell is NaN, +inf or -inf
+            z = data["z"][1].reshape(-1)
+            for c in case["ynull"]:
+                k = (c + int(case.get("num", 0))) % 3
+                if k:
+                    z[c] = np.inf if k == 1 else -np.inf
         args = (dims[-1], dims[-2], "z")
     else:
         data = {"xv": var(2 * cells, case["ynull"])}
